@@ -9,7 +9,7 @@ import (
 // C16 — Signature policy means the same at provisioning, first load, refresh and restart.
 // Matrix: signature mode {unset, verify, verify_log, none} x signer {resolvable from the chain,
 // resolvable only from configuration, unknown, signature wrong} x intake path {configured CRL at
-// provision, first CDP fetch, periodic refresh, refresh after restart} x backend = 128 cells, each a
+// provision, first CDP fetch, periodic refresh, refresh after restart, background first fetch retried after an outage} x backend = 160 cells, each a
 // short history ending with pure probes.
 //
 //	verify / unset : a document that fails reference verification is never observed in force,
@@ -19,14 +19,16 @@ import (
 
 var c16modes = []string{"", "verify", "verify_log", "none"}
 var c16signers = []string{"chain", "config", "unknown", "wrong"}
-var c16paths = []string{"provision", "first-cdp", "refresh", "refresh-after-restart"}
+var c16paths = []string{"provision", "first-cdp", "refresh", "refresh-after-restart", "first-cdp-background-retry"}
+
+const c16cells = 4 * 4 * 5 * 2
 
 func init() {
 	register(&PropDef{ID: "C16", Plan: func(tier string) Plan {
-		n := 128
-		p := Plan{Runs: n, Enumerated: n, Exhaustive: true, Level: "exploration", Rule: "one run = one cell of signature mode {unset, verify, verify_log, none} x signer {resolvable from the chain, resolvable only from configuration, unknown, signature wrong} x intake path {configured CRL at provision, first CDP fetch, periodic refresh, refresh after restart} x backend {memory, disk}; a short fault-free history ending with pure probes (and, where the cell allows it, a clean restart with the origin down); non-trivial = the signer is not resolvable or the mode is not 'verify'"}
+		n := c16cells
+		p := Plan{Runs: n, Enumerated: n, Exhaustive: true, Level: "exploration", Rule: "one run = one cell of signature mode {unset, verify, verify_log, none} x signer {resolvable from the chain, resolvable only from configuration, unknown, signature wrong} x intake path {configured CRL at provision, first CDP fetch, periodic refresh, refresh after restart, first CDP fetch in the background whose first attempt meets an unreachable origin and is retried by the refresh cycles} x backend {memory, disk}; a short fault-free history ending with pure probes (and, where the cell allows it, a clean restart with the origin down); non-trivial = the signer is not resolvable or the mode is not 'verify'"}
 		if tier == "thorough" {
-			p.Runs = 128 * 6 // each cell under 6 seeds (key types, encodings, sizes)
+			p.Runs = c16cells * 6 // each cell under 6 seeds (key types, encodings, sizes)
 			p.Enumerated = p.Runs
 		}
 		return p
@@ -35,17 +37,17 @@ func init() {
 
 func runC16(h *Harness) {
 	tp := h.Tape
-	i := h.Idx % 128
+	i := h.Idx % c16cells
 	mode := c16modes[i%4]
 	signer := c16signers[(i/4)%4]
-	path := c16paths[(i/16)%4]
-	backend := []string{"memory", "disk"}[(i/64)%2]
+	path := c16paths[(i/16)%5]
+	backend := []string{"memory", "disk"}[(i/80)%2]
 	sc := h.R.Scenario
 	sc["sigmode"], sc["signer"], sc["path"], sc["backend"] = mode, signer, path, backend
 	verify := mode == "" || mode == "verify"
-	w := NewWorld(h, WorldOpts{RSA: h.Idx >= 128 && tp.Chance(1, 3), Intermediate: tp.Chance(1, 2)})
+	w := NewWorld(h, WorldOpts{RSA: h.Idx >= c16cells && tp.Chance(1, 3), Intermediate: tp.Chance(1, 2)})
 	T := NewCA(nil, CAOpts{CN: "x", SubjectOf: w.A})
-	loc := w.NewLocation(LocOpts{Name: "L1", URL: "http://crl.sim/a.crl", Issuer: w.A, NVers: 3, Extra: Pick(tp, 2, 30), Width: 8, PEM: h.Idx >= 128 && tp.Chance(1, 2)})
+	loc := w.NewLocation(LocOpts{Name: "L1", URL: "http://crl.sim/a.crl", Issuer: w.A, NVers: 3, Extra: Pick(tp, 2, 30), Width: 8, PEM: h.Idx >= c16cells && tp.Chance(1, 2)})
 	// re-sign every version according to the signer kind
 	resign := func(k int, kind string) {
 		c := *loc.Versions[k]
@@ -158,6 +160,26 @@ func runC16(h *Harness) {
 			h.Violation("C16.verify-unverified-in-force", sigClass(), "cell %s: strict handshake accepted although the only CRL delivered fails verification", cell)
 		}
 		if !expectInForce(n, 0, "after-first-fetch") {
+			goto done
+		}
+	case "first-cdp-background-retry":
+		// fetch_background: the handshake only starts the load. The origin is unreachable then; it recovers, and the
+		// refresh cycles have to load the list for the first time - under the same policy as everywhere else.
+		resign(0, signer)
+		resign(1, signer)
+		resign(2, signer)
+		cfg.FetchMode = "fetch_background"
+		n = h.NewNode("n1", cfg)
+		if err := h.Provision(n); err != nil {
+			h.Violation("C16.setup", "provision-failed", "%v", err)
+			return
+		}
+		loc.State = oDown
+		h.Handshake(n, "first", chain)
+		h.Settle(30 * time.Second)
+		loc.State = oGood
+		h.Settle(2*(10*time.Minute) + 40*time.Second)
+		if !expectInForce(n, 0, "after-background-retries") {
 			goto done
 		}
 	case "refresh", "refresh-after-restart":
